@@ -40,7 +40,7 @@ func runC20(c *vf.Case) {
 	}
 	gen := r.U64()
 	genOff := 0
-	var read []byte      // model of the read area
+	var read []byte        // model of the read area
 	var parked []c20Packet // arrival order
 	parkedBytes := 0
 	discardedSinceReset := 0 // bytes discarded through the offsetter since it was last reset
